@@ -18,6 +18,8 @@ func main() {
 	hvSeed, hvCount, wo, wi, _, hvDone := hv.Args()
 	defer hvDone()
 	rng := rand.New(rand.NewSource(hvSeed))
+	nWF := 0
+	defer func() { hv.Stats(map[string]int{"well_formed_builds_premises_checked": nWF}) }()
 	for it := 0; it < hvCount; it++ {
 		g := toposort.NewGraph()
 		fmt.Fprintln(wo, "new")
@@ -164,6 +166,12 @@ func main() {
 				}
 			}
 		}()
+		if wellFormed && !dirty && !malformedOp {
+			// premises of the refinement theorems hold on every well-formed build
+			fmt.Fprintln(wo, "wf")
+			fmt.Fprintln(wi, "true")
+			nWF++
+		}
 		// FindCycle for two seeds: [] or a real cycle through the seed, non-empty whenever one exists
 		for k := 0; k < 2; k++ {
 			seed := rng.Intn(n)
